@@ -114,12 +114,12 @@ PROPS.update({
         "title": "Compression keeps the message, stays valid and never grows the packet",
         "units": ["U7", "U1"],
         "cone": {"U1": [r"DNSSector::(parse|parse_rr|parse_opt|parse_question|new)$"],
-                 "U7": [r"Compress::(compress|compress_rdata|copy_compressed_name|copy_compressed_name_with_base_offset|indirections|raw_name_len|raw_name_len_after_decompression)$", r"SuffixDict::", r"Default for Suffix", r"spec/(dict|ptr|cacc|rename|locality|names|pfpacket|reader|iter)\\.rs", r"ResponseIterator::", r"QuestionIterator::", r"ParsedPacket::into_iter_"]},
+                 "U7": [r"Compress::(compress|compress_rdata|copy_compressed_name|copy_compressed_name_with_base_offset|indirections|raw_name_len|raw_name_len_after_decompression)$", r"SuffixDict::", r"Default for Suffix", r"spec/(dict|ptr|cacc|crt|clients_u7|uncompress|pfedit|rename|locality|names|pfpacket|reader|iter)\\.rs", r"Compress::(uncompress|uncompress_with_previous_offset|uncompress_rdata|copy_uncompressed_name)$", r"ResponseIterator::", r"QuestionIterator::", r"ParsedPacket::into_iter_"]},
         "witness": ("c06", 12000),
         "level": "proof", "design_ref": "DESIGN.md section 5 C06",
         "assumptions": U1_ASSUME + ["#[derive(Default)] on SuffixDict yields count == 0 and index == 0 (assumed specification of the derived impl)",
                                      "units with iterator client loops are verified with --no-lifetime"],
-        "level_text": "(F1) representation invariant of the suffix dictionary, (F2) insert against the abstract view (hit: some live entry equals the suffix up to ASCII case, nothing changes; miss: exactly slot `index` is replaced, every other slot untouched), (F3) the offset remembered for a suffix is its position in the OUTPUT, (F4) what the name emitter appends is whole labels followed by nothing or one pointer below 0x4000 that stands for at least 3 bytes, (F5) a compressed name/record/packet is never longer than the original, (F6) every record of every section is re-emitted, OPT included, (F7) the RDLENGTH written back equals the data bytes emitted, (F8) 'every pointer it emits designates, in the output, the suffix it stands for': the invariant dict_ok (every live dictionary entry designates, in the output, a valid name equal to its suffix up to ASCII case) holds from SuffixDict::new() to the end of compress(): the name emitter keeps it (pending-entry invariant of its loop; a hit can only be an entry that was faithful at entry), Compress::indirections is proved to return exactly the number of pointers the parser follows, appends keep it (walk transport lemma), and so does the RDLENGTH fix-up of compress_rdata (no name designated by the dictionary reads those two bytes: window lemmas of spec/ptr.rs); consequently every name compress() writes -- question, owner names, NS/CNAME/PTR/MX targets, both SOA names -- is asserted, at the place it is emitted, to be valid under the parser's name rule (at most 16 pointers, strictly backward, at most 255 bytes) and to decode in the output to the input name up to ASCII case; (F9) 'compression succeeds and returns an accepted packet': compress(p).is_ok() <==> wf_packet(p), and r matches Ok(c) ==> wf_packet(c) -- every record written is proved to be a record the parser accepts (compress_rdata: out_rdata per record type, incl. the verbatim option list of OPT and the pointer-free name of DNAME; lemma_out_record), the sections are assembled record by record (lemma_rrs_append, stability under growth: lemma_rr_spec_ext / lemma_rrs_ext), OPT at most once with a one-byte root owner, question class and header policy from the copied header (lemma_accept); the header is copied; (F10) 'whose header, record sequence (including any OPT record and its options) and record contents equal the input's, names being equal up to ASCII case': r matches Ok(c) ==> msg_ci(c, p) (spec/cacc.rs) -- header bytes equal; question name equal up to case, type and class byte for byte; then, section by section at the sections' starts as the reader computes them (sec_start of the output against sec_start of the input) and record by record in order (recs_ci), owner name equal up to case, type/class/TTL byte for byte, and the data: the target name of NS/CNAME/PTR, preference and exchange of MX, both names and the twenty fixed bytes of SOA, and for every other type (OPT and its option list, A, AAAA, DNAME, opaque) RDLENGTH and data byte for byte (compress_rdata: rd_ci per arm; stability of already written records under growth: lemma_rec_ci_ext / lemma_recs_ci_ext; assembly lemma_recs_ci_append / lemma_msg_ci). NOT proved by contracts: 'the question name byte-identical' (proved only up to case: byte identity needs 'the first name meets an empty dictionary and cannot hit one of its own suffixes') and 'decompressing the result gives back the input up to name case' as a statement about uncompress(compress(p)) (it follows from F9 + F10 + C05's uncompress_spec informally; the composition lemma is not written) -- both are exercised by the differential replay (compress, re-parse, compare, decompress)",
+        "level_text": "(F1) representation invariant of the suffix dictionary, (F2) insert against the abstract view (hit: some live entry equals the suffix up to ASCII case, nothing changes; miss: exactly slot `index` is replaced, every other slot untouched), (F3) the offset remembered for a suffix is its position in the OUTPUT, (F4) what the name emitter appends is whole labels followed by nothing or one pointer below 0x4000 that stands for at least 3 bytes, (F5) a compressed name/record/packet is never longer than the original, (F6) every record of every section is re-emitted, OPT included, (F7) the RDLENGTH written back equals the data bytes emitted, (F8) 'every pointer it emits designates, in the output, the suffix it stands for': the invariant dict_ok (every live dictionary entry designates, in the output, a valid name equal to its suffix up to ASCII case) holds from SuffixDict::new() to the end of compress(): the name emitter keeps it (pending-entry invariant of its loop; a hit can only be an entry that was faithful at entry), Compress::indirections is proved to return exactly the number of pointers the parser follows, appends keep it (walk transport lemma), and so does the RDLENGTH fix-up of compress_rdata (no name designated by the dictionary reads those two bytes: window lemmas of spec/ptr.rs); consequently every name compress() writes -- question, owner names, NS/CNAME/PTR/MX targets, both SOA names -- is asserted, at the place it is emitted, to be valid under the parser's name rule (at most 16 pointers, strictly backward, at most 255 bytes) and to decode in the output to the input name up to ASCII case; (F9) 'compression succeeds and returns an accepted packet': compress(p).is_ok() <==> wf_packet(p), and r matches Ok(c) ==> wf_packet(c) -- every record written is proved to be a record the parser accepts (compress_rdata: out_rdata per record type, incl. the verbatim option list of OPT and the pointer-free name of DNAME; lemma_out_record), the sections are assembled record by record (lemma_rrs_append, stability under growth: lemma_rr_spec_ext / lemma_rrs_ext), OPT at most once with a one-byte root owner, question class and header policy from the copied header (lemma_accept); the header is copied; (F10) 'whose header, record sequence (including any OPT record and its options) and record contents equal the input's, names being equal up to ASCII case': r matches Ok(c) ==> msg_ci(c, p) (spec/cacc.rs) -- header bytes equal; question name equal up to case, type and class byte for byte; then, section by section at the sections' starts as the reader computes them (sec_start of the output against sec_start of the input) and record by record in order (recs_ci), owner name equal up to case, type/class/TTL byte for byte, and the data: the target name of NS/CNAME/PTR, preference and exchange of MX, both names and the twenty fixed bytes of SOA, and for every other type (OPT and its option list, A, AAAA, DNAME, opaque) RDLENGTH and data byte for byte (compress_rdata: rd_ci per arm; stability of already written records under growth: lemma_rec_ci_ext / lemma_recs_ci_ext; assembly lemma_recs_ci_append / lemma_msg_ci). (F11) 'and the question name byte-identical': a name that meets an empty dictionary is written out in full (the name emitter cannot hit one of its own, longer, suffixes: loop invariant on the lengths of the entries), so compress() copies header and question byte for byte: c[0..q_end(p)) == p[0..q_end(p)); (F12) 'decompressing the result gives back the input up to name case': theorem_c06_roundtrip (spec/crt.rs) -- for accepted c carrying the message of the accepted pointer-free p, uncompress_spec(c) is accepted, pointer-free, exactly as long as p and carries p's message (both being pointer-free: equal bytes up to the case of letters inside names); record level lemma_un_rd_ci / lemma_un_rec_ci per record type, runs lemma_un_recs_ci, sections lemma_c06_section -- and the verified client client_compress_roundtrip (spec/clients_u7.rs, not repo code) composes the two REAL functions by their contracts: Compress::uncompress(Compress::compress(p)) succeeds and returns exactly that. Every clause of the statement is now a proved postcondition; the differential replay (compress, re-parse, compare, decompress) remains as the witness search for failing obligations",
         "technique": "Verus data-structure invariant + view-based postconditions for the dictionary; frame/length/count contracts for the emitter and the section loops; remaining clauses by differential replay (stated)",
     },
     "C07": {
